@@ -579,6 +579,7 @@ impl PDFObjP<'_> {
             Some(b) => {
                 if !b.is_ascii_digit()
                     && b != 45 // '-' to handle negative numbers
+                    && b != 43 // '+' to handle explicitly signed numbers
                     && b != 46
                 // '.' to handle reals
                 {
